@@ -99,6 +99,18 @@ m("bp-dvi-local", "C16", "silent", "",
   [("crates/dvi/src/serialize.rs", "        Op::Right(i) => {\n            w.i32_var(143, *i);", "        Op::Right(i) => {\n            let amount = *i;\n            w.i32_var(143, amount);")])
 m("bp-hook-first-stmt-reorder", "C01", "silent", "",
   [("crates/texlang-stdlib/src/registers.rs", "    let scope = TexlangState::variable_assignment_scope_hook(input.state_mut());\n    let (cmd_ref_or, _, index) =", "    let state = input.state_mut();\n    let scope = TexlangState::variable_assignment_scope_hook(state);\n    let (cmd_ref_or, _, index) =")])
+m("bp-peek-via-map", "C03", "silent", "",
+  [("crates/texlang/src/token/lexer.rs",
+    "        match self.next_char() {\n            Some(c) => {\n                let code = config.cat_code(c);\n                Some(RawToken {\n                    char: c,\n                    code,\n                    trace_key: self.trace_key_range.peek(),\n                })\n            }\n            None => None,\n        }",
+    "        let range = &mut self.trace_key_range;\n        self.current_line[self.pos..].chars().next().map(|c| RawToken {\n            char: c,\n            code: config.cat_code(c),\n            trace_key: range.peek(),\n        })")])
+m("bp-iterall-while-let", "C08", "silent", "",
+  [("crates/texcraft-stdext/src/collections/groupingmap.rs",
+    "            for visible_item in visible_items {\n                match self.key_to_val.get(&visible_item.0) {",
+    "            #[allow(clippy::while_let_on_iterator)]\n            while let Some(visible_item) = visible_items.next() {\n                match self.key_to_val.get(&visible_item.0) {")])
+m("bp-guarded-digit-index", "C06", "silent", "",
+  [("crates/texlang/src/parse/dimen.rs",
+    "        if let Some(digit) = digits.get_mut(i) {\n            *digit = d;\n            i += 1;\n        }",
+    "        if i < digits.len() {\n            digits[i] = d;\n            i += 1;\n        }")])
 
 def sh(c):
     return subprocess.run(c, shell=True, stdout=subprocess.PIPE, stderr=subprocess.STDOUT, text=True)
